@@ -151,6 +151,12 @@ impl Prop for Bounded {
                     stream.push(0);
                     fr.push(f);
                 }
+                // variant: the burst of small frames is followed, without a pause, by a frame that
+                // never ends (more than the limit without a terminator)
+                let runaway = l != PRODUCTION && case.warmup == 2;
+                if runaway {
+                    stream.extend(std::iter::repeat(b'R').take(l + 700));
+                }
                 let (rd, wr) = {
                     let mut w = world.borrow_mut();
                     let rd = w.scripted_pipe(&stream, true);
@@ -164,9 +170,14 @@ impl Prop for Bounded {
                     let mut ex = Exec::new();
                     let r2 = results.clone();
                     let kind = case.kind;
+                    let world2 = world.clone();
+                    let lens: Vec<usize> = fr.iter().map(|f| f.len() + 1).collect();
                     ex.spawn(async move {
-                        for _ in 0..count {
+                        for i in 0..count + runaway as usize {
                             let r = frames::recv_kind(&mut conn, kind).await;
+                            if i < count && matches!(r, Res::Ok(_)) {
+                                world2.borrow_mut().pipes[rd].consumed_by_app += lens[i];
+                            }
                             r2.borrow_mut().push(r);
                         }
                     });
@@ -183,6 +194,18 @@ impl Prop for Bounded {
                         other => {
                             return Err(("C17/unexpected-result".into(), format!("burst frame {i}: expected {:?}, got {other:?}", short(&Some(want)))));
                         }
+                    }
+                }
+                // the burst was accepted: then it must have been accepted without holding more than
+                // the limit in memory, and the runaway frame behind it must be refused
+                let peak = world.borrow().pipes[rd].max_unconsumed_plus_window;
+                if peak > l + 256 {
+                    return Err(("C17/memory-not-bounded".into(), format!("{count} pipelined frames of {} bytes each{} (limit {l}): at some transport read the reader held {peak} bytes that the application had not consumed yet (unconsumed bytes + the window offered to the read)", fr[0].len(), if runaway { " followed by an unterminated frame" } else { "" })));
+                }
+                if runaway {
+                    match got.get(count) {
+                        Some(Res::ErrOverflow) => {}
+                        other => return Err(("C17/unterminated-stream-not-refused".into(), format!("{} bytes without terminator behind a burst of {count} small frames, limit {l}: expected BufferOverflow, got {:?}", l + 700, short(&other.cloned())))),
                     }
                 }
                 world.borrow_mut().stat("inbound_burst_accepted");
@@ -238,9 +261,14 @@ impl Prop for Bounded {
                     ex.spawn(async move {
                         for _ in 0..count {
                             let r = frames::recv_kind(&mut conn, kind).await;
-                            ra.borrow_mut().push(world2.borrow().pipes[rd].total_read);
+                            let mut w = world2.borrow_mut();
+                            ra.borrow_mut().push(w.pipes[rd].total_read);
+                            if matches!(r, Res::Ok(_)) {
+                                // every frame is its own burst: all of it has been handed over
+                                w.pipes[rd].consumed_by_app = w.pipes[rd].total_read;
+                            }
                             r2.borrow_mut().push(r);
-                            world2.borrow_mut().counter += 1;
+                            w.counter += 1;
                         }
                     });
                     ex.run(world);
@@ -290,6 +318,10 @@ impl Prop for Bounded {
                 }
                 if r == Some(Res::ErrOverflow) && burst > l + 256 {
                     return Err(("C17/memory-not-bounded".into(), format!("overflow reported only after consuming {burst} bytes of one burst with limit {l}")));
+                }
+                let peak = world.borrow().pipes[rd].max_unconsumed_plus_window;
+                if peak > l + 256 {
+                    return Err(("C17/memory-not-bounded".into(), format!("inbound frame of {n} bytes, limit {l}: at some transport read the reader held {peak} bytes that the application had not consumed yet (unconsumed bytes + the window offered to the read)")));
                 }
                 Ok(world.borrow().scenario.clone())
             }
